@@ -111,6 +111,22 @@ def ordered_delivery(rep, rule, fn, file, label, deliver, container, counter, ke
         ok = ok and g.exit not in r and not (set(dn) & r)
     rep.check(rule, "%s: every delivery is followed by self.%s += 1 before the next delivery or return" % (label, counter), ok,
               site(fn, file), key="%s:%s:increment-after-delivery" % (rule, label))
+    # a delivery whose exception is caught inside this function continues like any other: the handler must not leave the entry
+    # un-retired (buffer entry kept / counter not advanced), or the same number is handed to the application again on the next arrival
+    ok = True
+    caught = 0
+    for n in list(dn) + list(fast):
+        hs = [y for (y, lab) in g.succ[n] if lab == 'exc' and y != g.raise_exit]
+        if not hs:
+            continue
+        caught += 1
+        r = g.reach(hs, avoid_nodes=set(incs), explicit_only=True)
+        ok = ok and g.exit not in r and not (set(dn) & r)
+    rep.check(rule, "%s: a delivery that raises into a local handler (%d such) still advances self.%s before the function returns or delivers "
+              "again (a failed hand-over is not repeated)" % (label, caught, counter), ok, site(fn, file),
+              key="%s:%s:increment-after-caught-delivery" % (rule, label),
+              what="%s: when the application's handler raises, the exception is swallowed and the number stays current: the same message is "
+                   "delivered a second time when the next one arrives" % label)
     # and an increment happens only after a delivery (no skipping)
     ok = True
     for i in incs:
@@ -480,5 +496,9 @@ REWRITES = [
     Rewrite("drain-clear-call", _SEND, "        self._queue[:] = []", "        self._queue.clear()", desc="clear() instead of slice assignment"),
 ]
 
+MUTANTS.append(Mutant("rx-delivery-error-swallowed", BOSS, "            self._W.received(self._rx_phases.pop(self._next_rx_phase))\n            self._next_rx_phase += 1",
+                      "            try:\n                self._W.received(self._rx_phases[self._next_rx_phase])\n                del self._rx_phases[self._next_rx_phase]\n"
+                      "                self._next_rx_phase += 1\n            except Exception:\n                log.err()\n                break", "C03.R2",
+                      "a raising application handler leaves the phase current: delivered again with the next arrival (seed C02-11)"))
 MUTANTS.append(Mutant("reorder-buffers-aliased", BOSS, "        self._rx_phases = {}  # phase -> plaintext", "        self._rx_phases = self._rx_dilate_seqnums = {}  # phase -> plaintext", ("C03.R0", "C03.R2"),
                       "one dict for the application reorder buffer and the dilation one"))
